@@ -48,6 +48,7 @@ def run(rep, tier):
     from ..report import Alias
     rep.rule("R8.12", "every orient2d argument in the hull code and in is_convex (the oracle of the convex-ring clause) is a bit-copy of an input coordinate (C03 R3.4)")
     c03.orient_args(Alias(rep, "R8.12"), F)
+    c03.kernel_sqdist(rep, F, rule="R8.13")    # the tie-break of the Graham scan's angular sort
     # the hull is computed from exterior_coords_iter(): every exterior coordinate of every member must be handed over (tables shared with C19)
     from . import c19
     c19.traversal_tables(rep, F, rule="R8.9")
